@@ -168,6 +168,20 @@ GrowOnly(amount) ==
     LET g == GrowBy(cap, head, tail, mem, amount)
     IN Finish(g[1], g[2], g[3], g[4], 0, Old)
 
+\* growth as observed (trace validation): any new allocation that keeps the contents, provides the requested
+\* additional free space and places the data where the recorded indices say.  The growth policy itself
+\* (next power of two plus one, data moved to offset 0) is not part of the property.
+GrowObserved(amount, nc, nh, nt) ==
+    LET l == RLen(cap, head, tail)
+        lg == Old
+    IN /\ nc > cap /\ nh < nc /\ nt < nc
+       /\ RLen(nc, nh, nt) = l
+       /\ FreeOf(nc, nh, nt) >= FreeOf(cap, head, tail) + amount
+       /\ Finish(nc, nh, nt,
+                 [p \in 0..nc-1 |-> IF p \in Live(nc, nh, nt)
+                                     THEN lg[(IF p >= nh THEN p - nh ELSE nc - nh + p) + 1] ELSE U],
+                 0, Old)
+
 \* extend_from_reader zeroes n cells at offset s before it reads into them
 Zero(s, n) ==
     LET oob == s + n > cap
